@@ -2,7 +2,8 @@
 import ast
 
 from ..core import astutil as A
-from ..core.mirror import canon, swap
+from ..core import match as M
+from ..core.mirror import canon, clone, swap
 from ..core.model import dotted
 
 META = {
@@ -12,11 +13,60 @@ META = {
 }
 
 
+def is_noop(st):
+    """statements that carry no behaviour: pass, a bare constant (docstring / placeholder), a logging or warning call"""
+    if isinstance(st, ast.Pass):
+        return True
+    if isinstance(st, ast.Expr):
+        if isinstance(st.value, ast.Constant):
+            return True
+        if isinstance(st.value, ast.Call) and (dotted(st.value.func) or "").startswith(("logger.", "logging.", "warnings.")):
+            return True
+    return False
+
+
+def effective(stmts):
+    return [s for s in stmts if not is_noop(s)]
+
+
+def cleaned(node):
+    """structural copy without no-op statements at any depth (for canonical comparison only)"""
+    if isinstance(node, list):
+        return [cleaned(n) for n in node if not is_noop(n)]
+    new = clone(node)
+    for n in ast.walk(new):
+        for fld in ("body", "orelse", "finalbody"):
+            v = getattr(n, fld, None)
+            if isinstance(v, list) and v and isinstance(v[0], ast.stmt):
+                setattr(n, fld, [x for x in v if not is_noop(x)])
+    return new
+
+
+def ccanon(node):
+    return canon(cleaned(node))
+
+
+def expr(src):
+    return ast.parse(src, mode="eval").body
+
+
+def first_is(stmts, text):
+    eff = effective(stmts)
+    return bool(eff) and A.unparse(eff[0]) == text
+
+
+def tests_char_in_op(test, ch, owner=None):
+    """`'<' in X.op` occurs in the test (X == owner when given)"""
+    for n in ast.walk(test):
+        if isinstance(n, ast.Compare) and len(n.ops) == 1 and isinstance(n.ops[0], ast.In) and A.is_const(n.left, ch):
+            c = n.comparators[0]
+            if isinstance(c, ast.Attribute) and c.attr == "op" and (owner is None or A.unparse(c.value) == owner):
+                return True
+    return False
+
+
 def top_level(fn):
-    body = list(fn.body)
-    if body and isinstance(body[0], ast.Expr) and isinstance(body[0].value, ast.Constant):
-        body = body[1:]
-    return body
+    return effective(fn.body)
 
 
 def run(ctx):
@@ -25,17 +75,25 @@ def run(ctx):
     f = P.func("pkgcore.ebuild.atom", "atom.intersects")
     a, b = f.params()[0], f.params()[1]
     body = top_level(f.node)
-    # locate the normalising swap: an If whose arms assign `ranged`
+
+    # locate the normalising swap by its role: the top-level If whose arms (re)bind a name to one of the operands
+    def aliases_operand(x):
+        if not isinstance(x, ast.Assign):
+            return False
+        v = x.value
+        vs = v.elts if isinstance(v, ast.Tuple) else [v]
+        return all(isinstance(e, ast.Name) and e.id in (a, b) for e in vs)
+
     swap_idx = None
     for i, st in enumerate(body):
-        if isinstance(st, ast.If) and any(isinstance(x, ast.Assign) and "ranged" in A.unparse(x.targets[0]) for x in ast.walk(st)):
+        if isinstance(st, ast.If) and any(aliases_operand(x) for x in ast.walk(st)):
             swap_idx = i
             break
     ctx.require(swap_idx is not None, "atom.intersects: normalising `ranged` assignment not found; idiom changed")
     pre = body[:swap_idx]
     post = body[swap_idx + 1:]
-    canons = [canon(s) for s in pre]
-    mirrors = [canon(swap(s, a, b)) for s in pre]
+    canons = [ccanon(s) for s in pre]
+    mirrors = [canon(swap(cleaned(s), a, b)) for s in pre]
     for i, st in enumerate(pre):
         if isinstance(st, (ast.If, ast.For, ast.Assign, ast.Return)):
             sym = mirrors[i] == canons[i]
@@ -49,19 +107,27 @@ def run(ctx):
     sw = body[swap_idx]
     ranged_ops = A.try_literal(sw.test.comparators[0]) if isinstance(sw.test, ast.Compare) and isinstance(sw.test.ops[0], ast.In) else None
     ctx.require(ranged_ops is not None and A.unparse(sw.test.left) == f"{a}.op", "atom.intersects: swap condition is not `self.op in (<ranged ops>)`")
-    arm_t = [A.unparse(s) for s in sw.body]
-    arm_f = [A.unparse(s) for s in sw.orelse]
-    ctx.check("R1", f, arm_t == [f"ranged = {a}"] and arm_f == [f"ranged, {b} = ({b}, {a})"], "swap-shape",
-              "the ranged operand is named `ranged`, the other one `other`, whichever side it came from", f"swap arms are {arm_t} / {arm_f}", node=sw)
+    arm_t = [A.unparse(s) for s in effective(sw.body)]
+    arm_f = [A.unparse(s) for s in effective(sw.orelse)]
+    shape = M.pat(f"if {a}.op in $_:\n    $r = {a}\nelse:\n    $r, {b} = {b}, {a}").matches(sw)
+    # the name the ranged operand goes by after the swap (whatever it is spelled)
+    if shape is not None:
+        r = shape["r"]
+    else:
+        stored = [n.id for x in ast.walk(sw) if isinstance(x, ast.Assign) for n in ast.walk(x) if isinstance(n, ast.Name) and isinstance(n.ctx, ast.Store) and n.id not in (a, b)]
+        r = stored[0] if stored else "ranged"
+    ctx.check("R1", f, shape is not None and len(arm_t) == 1 and len(arm_f) == 1, "swap-shape",
+              "the ranged operand is named by one local, the other one `other`, whichever side it came from", f"swap arms are {arm_t} / {arm_f}", node=sw)
     # after the swap the receiver must not be mentioned any more
     for st in post:
         uses = [n for n in ast.walk(st) if isinstance(n, ast.Name) and n.id == a]
         ctx.check("R1", f, not uses, f"post-swap-uses-{a}@{A.unparse(st)[:40]}", f"after the swap `{a}` is no longer referenced", node=st)
     # both-ranged arm symmetric in (ranged, other)
-    both = [s for s in post if isinstance(s, ast.If) and "'<' in" in A.unparse(s.test) and "'>' in" in A.unparse(s.test)]
+    both = [s for s in post if isinstance(s, ast.If) and tests_char_in_op(s.test, "<") and tests_char_in_op(s.test, ">")]
     ctx.require(both, "atom.intersects: both-ranged arm not found")
     br = both[0]
-    ctx.check("R1", f, canon(swap(br.body, "ranged", b)) == canon(br.body), "both-ranged-symmetric",
+    br_body = cleaned(br.body)
+    ctx.check("R1", f, canon(swap(br_body, r, b)) == canon(br_body), "both-ranged-symmetric",
               "the both-ranged arm checks each endpoint against the other atom symmetrically",
               "the both-ranged arm is not symmetric in (ranged, other): e.g. only one endpoint is checked (<=2 vs >2 false positive) or order matters", node=br)
 
@@ -71,10 +137,13 @@ def run(ctx):
     ctx.require(isinstance(vo, (set, frozenset)), "atom.valid_ops literal not found")
     all_ops = set(vo) | {"=*", ""}
     covered = set()
+
+    def is_op_attr(n):
+        return isinstance(n, ast.Attribute) and n.attr == "op"
+
     for n in A.body_walk(f.node):
         if isinstance(n, ast.Compare):
-            txt = A.unparse(n)
-            if ".op" not in txt:
+            if not any(is_op_attr(x) for x in ast.walk(n)):
                 continue
             consts = [c.value for c in ast.walk(n) if isinstance(c, ast.Constant) and isinstance(c.value, str)]
             if any(isinstance(o, (ast.In,)) for o in n.ops) and isinstance(n.left, ast.Constant):
@@ -82,14 +151,14 @@ def run(ctx):
                 covered |= {o for o in all_ops if n.left.value in o}
             else:
                 covered |= set(consts)
-        elif isinstance(n, ast.UnaryOp) and isinstance(n.op, ast.Not) and A.unparse(n.operand).endswith(".op"):
+        elif isinstance(n, ast.UnaryOp) and isinstance(n.op, ast.Not) and is_op_attr(n.operand):
             covered.add("")
     for op in sorted(all_ops):
         ctx.check("R2", f, op in covered, f"op-dispatched:{op or 'none'}", f"operator {op!r} is dispatched somewhere in intersects",
                   f"operator {op!r} is in valid_ops but never tested in intersects(): the final NotImplementedError is reachable")
     ctx.check("R2", f, set(ranged_ops) == {o for o in vo if "<" in o or ">" in o}, "ranged-set", f"the ranged operator tuple {ranged_ops} is exactly the ops containing < or >")
-    last = body[-1]
-    ctx.check("R2", f, isinstance(last, ast.Raise) and "NotImplementedError" in A.unparse(last), "fallthrough-raises", "falling through every arm raises NotImplementedError instead of answering")
+    last = body[-1]  # last effective statement (no-op statements are not in `body`)
+    ctx.check("R2", f, isinstance(last, ast.Raise) and (A.raised_name(last) or "").split(".")[-1] == "NotImplementedError", "fallthrough-raises", "falling through every arm raises NotImplementedError instead of answering")
     ctx.floor("R2", 9)
 
     # ---- R3 glob semantics agree with matching ---------------------------------------
@@ -97,11 +166,12 @@ def run(ctx):
     boundary_aware = any(isinstance(n, ast.Constant) and n.value in (".", "_", "-r") for n in ast.walk(sg.methods["match"].node))
     rf = P.func("pkgcore.ebuild.atom", "atom.restrictions")
     uses_raw = any((dotted(c.func) or "").endswith("StrGlobMatch") for c in A.calls(rf.node))
-    glob_ranged = [s for s in post if isinstance(s, ast.If) and A.unparse(s.test) == f"{b}.op == '=*'"]
+    glob_test = canon(expr(f"{b}.op == '=*'"))
+    glob_ranged = [s for s in post if isinstance(s, ast.If) and canon(s.test) == glob_test]
     ctx.require(glob_ranged, "atom.intersects: glob-vs-ranged arm not found")
     decides_by_prefix_only = all(
-        isinstance(r.value, ast.Call) and A.call_attr(r.value) == "startswith" or A.unparse(r.value) in ("True", "False")
-        for r in ast.walk(glob_ranged[0]) if isinstance(r, ast.Return)
+        isinstance(r_.value, ast.Call) and A.call_attr(r_.value) == "startswith" or A.unparse(r_.value) in ("True", "False")
+        for r_ in ast.walk(glob_ranged[0]) if isinstance(r_, ast.Return)
     )
     ctx.check("R3", f, not (uses_raw and not boundary_aware and decides_by_prefix_only), "glob-raw-prefix-vs-ranged",
               "glob-vs-range intersection and glob matching use the same =* semantics",
@@ -109,13 +179,19 @@ def run(ctx):
               "=cat/pkg-1* and >cat/pkg-2 are reported disjoint although cat/pkg-10 matches both", node=glob_ranged[0])
 
     # tilde-vs-range arm: the fallback must serve both lower-bounded operators
-    tilde = [s for s in post if isinstance(s, ast.If) and A.unparse(s.test) == f"{b}.op == '~'"]
+    tilde_test = canon(expr(f"{b}.op == '~'"))
+    tilde = [s for s in post if isinstance(s, ast.If) and canon(s.test) == tilde_test]
     ctx.require(tilde, "atom.intersects: tilde-vs-range arm not found")
-    fb = [r for r in ast.walk(tilde[0]) if isinstance(r, ast.Return) and "ranged.op" in A.unparse(r.value)]
+
+    def is_ranged_op(n):
+        return is_op_attr(n) and isinstance(n.value, ast.Name) and n.value.id == r
+
+    fb = [x for x in ast.walk(tilde[0]) if isinstance(x, ast.Return) and x.value is not None and any(is_ranged_op(n) for n in ast.walk(x.value))]
     ctx.require(fb, "atom.intersects: tilde-vs-range fallback not found")
+    fb.sort(key=lambda x: (x.lineno, x.col_offset))
     ops = set()
     for n in ast.walk(fb[-1].value):
-        if isinstance(n, ast.Compare) and A.unparse(n.left) == "ranged.op":
+        if isinstance(n, ast.Compare) and is_ranged_op(n.left):
             v = A.try_literal(n.comparators[0])
             ops |= set(v) if isinstance(v, (tuple, list, set, frozenset)) else {v}
     ctx.check("R3", f, ops == {">", ">="}, "tilde-fallback-ops:" + ",".join(sorted(map(str, ops))),
@@ -124,27 +200,38 @@ def run(ctx):
 
     # ---- R4 pre-checks compare like with like -------------------------------------------
     for attr in ("slot", "subslot", "repo_id"):
-        hits = [s for s in pre if isinstance(s, ast.If) and f"{a}.{attr} != {b}.{attr}" in A.unparse(s.test)]
-        ok = bool(hits) and f"{a}.{attr} is not None" in A.unparse(hits[0].test) and f"{b}.{attr} is not None" in A.unparse(hits[0].test) \
-            and A.unparse(hits[0].body[0]) == "return False"
+        want = canon(expr(f"{a}.{attr} is not None and {b}.{attr} is not None and {a}.{attr} != {b}.{attr}"))
+        differ = canon(expr(f"{a}.{attr} != {b}.{attr}"))
+        hits = [s for s in pre if isinstance(s, ast.If) and any(isinstance(n, ast.Compare) and canon(n) == differ for n in ast.walk(s.test))]
+        ok = bool(hits) and canon(hits[0].test) == want and first_is(hits[0].body, "return False")
         ctx.check("R4", f, ok, f"precheck:{attr}", f"{attr}: only a conflict when both sides set it and the values differ")
-    key = [s for s in pre if isinstance(s, ast.If) and ".key" in A.unparse(s.test)]
-    ctx.check("R4", f, bool(key) and canon(key[0].test) == canon(ast.parse(f"{a}.key != {b}.key", mode="eval").body) and A.unparse(key[0].body[0]) == "return False",
+    key = [s for s in pre if isinstance(s, ast.If) and any(isinstance(n, ast.Attribute) and n.attr == "key" for n in ast.walk(s.test))]
+    ctx.check("R4", f, bool(key) and canon(key[0].test) == canon(expr(f"{a}.key != {b}.key")) and first_is(key[0].body, "return False"),
               "precheck:key", "different category/package never intersect")
-    unv = [s for s in pre if isinstance(s, ast.If) and canon(s.test) == canon(ast.parse(f"not {a}.op or not {b}.op", mode="eval").body)]
-    ctx.check("R4", f, bool(unv) and A.unparse(unv[0].body[0]) == "return True", "unversioned-intersects", "an unversioned atom intersects any version constraint")
+    unv = [s for s in pre if isinstance(s, ast.If) and canon(s.test) == canon(expr(f"not {a}.op or not {b}.op"))]
+    ctx.check("R4", f, bool(unv) and first_is(unv[0].body, "return True"), "unversioned-intersects", "an unversioned atom intersects any version constraint")
     ctx.floor("R4", 5)
 
     # ---- R5 USE tokens reach the conflict test whole ------------------------------------------
-    uf = [st for st in A.body_walk(f.node) if isinstance(st, ast.Assign) and A.unparse(st.targets[0]) == "flags"]
+    # the conflict set, by its role: the one local computed from the operands' USE tokens
+    def reads_use(n):
+        return isinstance(n, ast.Attribute) and n.attr == "use" and isinstance(n.value, ast.Name) and n.value.id in (a, b)
+
+    uf = [st for st in A.body_walk(f.node) if isinstance(st, ast.Assign) and len(st.targets) == 1 and isinstance(st.targets[0], ast.Name)
+          and any(reads_use(n) for n in A.walk(st.value))]
     ctx.require(len(uf) == 1, "atom.intersects: USE conflict set `flags` not found")
+    fl = uf[0].targets[0].id
     LOSSY = {"partition", "split", "rsplit", "rstrip", "strip", "replace", "sub", "removesuffix"}
     lossy = [c for c in A.calls(uf[0].value) if A.call_attr(c) in LOSSY or (isinstance(c.func, ast.Attribute) and c.func.attr in LOSSY)]
     srcs = {A.unparse(n) for n in A.walk(uf[0].value) if isinstance(n, ast.Attribute) and n.attr == "use"}
     ctx.check("R5", f, not lossy and srcs == {f"{a}.use", f"{b}.use"}, f"use-tokens-whole:{A.unparse(lossy[0])[:40] if lossy else ''}", "the conflict test compares the USE tokens as written, default markers (+)/(-) included",
               f"the USE tokens are rewritten (`{A.unparse(lossy[0])[:60] if lossy else '?'}`) before the conflict test: flag(+) and -flag(-) are then taken for opposite demands on one flag, although a package without the flag in IUSE satisfies both — intersecting atoms are reported disjoint", node=uf[0])
-    loop = [st for st in A.body_walk(f.node) if isinstance(st, ast.For) and A.unparse(st.iter) == "flags"]
-    ok = len(loop) == 1 and "flag[0] == '-' and flag[1:] in flags" in A.unparse(loop[0]) and "return False" in A.unparse(loop[0])
+    loop = [st for st in A.body_walk(f.node) if isinstance(st, ast.For) and isinstance(st.iter, ast.Name) and st.iter.id == fl and st.lineno > uf[0].lineno]
+    ok = False
+    if len(loop) == 1 and isinstance(loop[0].target, ast.Name):
+        t = loop[0].target.id
+        conflict = canon(expr(f"{t}[0] == '-' and {t}[1:] in {fl}"))
+        ok = any(isinstance(s, ast.If) and canon(s.test) == conflict and first_is(s.body, "return False") for s in effective(loop[0].body))
     ctx.check("R5", f, ok, "conflict-is-same-token-both-signs", "a conflict is the same token demanded with and without '-'")
     ctx.floor("R5", 2)
 
